@@ -344,6 +344,17 @@ type Source struct {
 	// Late: the source is added (Configure.AddLoaders) after Run and the configuration is
 	// initialised a second time (reload).
 	Late bool `json:"late,omitempty"`
+	// SpawnedBy (with Late, kind "sim"): the source is not added by the application after Run but
+	// by this other simulated loader, from inside its LoadConfig (a bootstrap loader that
+	// registers further loaders while the configuration is being initialised); it takes part
+	// from the next initialisation on.
+	SpawnedBy string `json:"spawnedBy,omitempty"`
+	// ByValue (kind "sim", ordered / priority): the loader is handed over by value, and its type
+	// is not hashable (a struct with a slice in it).
+	ByValue bool `json:"byValue,omitempty"`
+	// Doc2 (kind "sim"): what the loader supplies from the second initialisation on (a source
+	// whose content changes while the container lives).
+	Doc2 map[string]any `json:"doc2,omitempty"`
 }
 
 func (p *Program) TypeByName(n string) *Type {
